@@ -69,7 +69,9 @@ type c15RuleSet struct {
 func c15RuleSets() []c15RuleSet {
 	return []c15RuleSet{
 		{Name: "anchored+method", Flags: []string{"--skip-auth-route=GET=^/public$", "--skip-auth-route=POST=^/api/hook$", "--skip-auth-route=^/open/", "--skip-auth-route=PUT=^/files/[0-9]+$"},
-			Paths:    []string{"/public", "/public/", "/publicx", "/xpublic", "/PUBLIC", "/public/extra", "/a/public", "/open/", "/open/x/y", "/open", "/api/hook", "/x/api/hook", "/api/hook/x", "/files/123", "/files/12a", "/files/", "/secret", "/"},
+			Paths:    []string{"/public", "/public/", "/publicx", "/xpublic", "/PUBLIC", "/public/extra", "/a/public", "/open/", "/open/x/y", "/open", "/api/hook", "/x/api/hook", "/api/hook/x", "/files/123", "/files/12a", "/files/", "/secret", "/",
+				// path parameters (';') are part of the path the rules are matched against
+				"/public;x", "/public;jsessionid=1", "/public/x;/..;/..;/admin", "/files/17;a=b/delete", "/files/17;", "/open/;x/secret", "/api/hook;v=2"},
 			Literals: []string{"/public", "/open/", "/api/hook", "/files/1"}},
 		{Name: "unanchored+dollar", Flags: []string{"--skip-auth-route=GET=/public$", "--skip-auth-route=/health", "--skip-auth-route=DELETE=/tmp/.*\\.bak$"},
 			Paths:    []string{"/public", "/a/public", "/public/x", "/publicx", "/health", "/a/healthy", "/x/health/y", "/heal", "/tmp/a.bak", "/tmp/a.bakx", "/tmp/abak", "/x/tmp/y/z.bak", "/secret", "/"},
@@ -78,7 +80,7 @@ func c15RuleSets() []c15RuleSet {
 			Paths:    []string{"/private", "/private/x", "/privatex", "/xprivate", "/priv", "/a/private", "/", "/Private"},
 			Literals: []string{"/private", "^/private"}},
 		{Name: "negated-dollar", Flags: []string{"--skip-auth-route=!=/private$"},
-			Paths:    []string{"/private", "/a/private", "/private/", "/private/x", "/privatex", "/"},
+			Paths:    []string{"/private", "/a/private", "/private/", "/private/x", "/privatex", "/", "/x/private;/secret", "/private;x", "/a;b/private"},
 			Literals: []string{"/private", "x"}},
 		{Name: "legacy-regex", Flags: []string{"--skip-auth-regex=^/legacy/", "--skip-auth-regex=/metrics$"},
 			Paths:    []string{"/legacy/a", "/legacy", "/legacy/", "/x/legacy/a", "/metrics", "/a/metrics", "/metricsx", "/metrics/", "/secret"},
@@ -95,7 +97,7 @@ func c15RuleSets() []c15RuleSet {
 		{Name: "bare-then-negated-then-method", Flags: []string{"--skip-auth-route=^/open$", "--skip-auth-route=POST!=^/(open|closed)", "--skip-auth-route=^/closed/door$", "--skip-auth-route=GET=^/g$", "--skip-auth-regex=^/legacy$"},
 			Paths: []string{"/open", "/closed", "/closed/door", "/closed/window", "/g", "/legacy", "/other", "/"}, Literals: []string{"/open", "/closed/door"}},
 		{Name: "extensions", Flags: []string{"--skip-auth-route=GET=\\.(css|js)$", "--skip-auth-route=^/public/"},
-			Paths: []string{"/a.css", "/a.js", "/a.jsx", "/admin/users", "/public/x", "/admin/public/x", "/x/public/", "/"}, Literals: []string{"theme=dark.css", "/public/", "a.js"}},
+			Paths: []string{"/a.css", "/a.js", "/a.jsx", "/admin/users", "/public/x", "/admin/public/x", "/x/public/", "/", "/admin/users;x.css", "/a.css;v=1", "/admin;/public/"}, Literals: []string{"theme=dark.css", "/public/", "a.js"}},
 		// legacy --skip-auth-regex values are bare regular expressions: an '=' or '!=' inside them is part of the expression
 		{Name: "legacy-regex-with-equals", Flags: []string{"--skip-auth-regex=^/download/[A-Za-z0-9_=-]+$", "--skip-auth-regex=^/k=v/", "--skip-auth-regex=^/cmp/a!=b$", "--skip-auth-regex=POST=^/hooks/", "--skip-auth-regex=GET!=^/never"},
 			Paths: []string{"/download/ab", "/download/a=b", "/download/a=b/c", "/download/", "/k=v/x", "/k=v", "/kv/x", "/cmp/a!=b", "/cmp/a=b", "/cmp/a", "/hooks/x", "/POST=/hooks/", "/never", "/ever", "/"}, Literals: []string{"/k=v/", "a!=b"}},
